@@ -24,6 +24,13 @@ PROVEN / FINDING matrix (path x resource) on the code after the two fix: commits
                           relayed REQUEST "renews" the dead lease): KNOWN KF-dhcp4-stale-index-revival (double-stop,
                           addr-not-returned of a lease made from a stale entry)
   shutdown                KNOWN KF-dhcp4-shutdown-residue: nothing is torn down, no Accounting-Stop
+  an install that fails   (op `fault qe|qi|nat|sub|cidmap|cid|vlan on`: the kernel map has no free slot): the session
+                          carries on with a partial set of entries; every row above holds all the same (the fault ops
+                          are operations of the theorems)
+  a removal that fails    (op `wfault sub|cidmap|cid on`: every write through the Loader's handle of that cache map
+                          fails): KNOWN KF-cache-delete-ignored: the error is logged or not even looked at, the entry
+                          outlives its session and the fast path keeps answering from it; the clause covers the keys of
+                          the write-protected map at the operation that orphans them only
 
   F = finding D46, fixed in /repo by ff76ae1 (DECLINE) and 35938e6 (expiry); (q) = quarantined, not free, after DECLINE;
   (*) = no code path of pkg/dhcp sets Lease.STag/CTag, the server never writes vlan_subscriber_pools.
@@ -63,6 +70,16 @@ ASSUME = [
     "exists and the NAT port pool never runs out; a QoS / NAT install that fails because a kernel map is full IS covered (op "
     "`fault qe|qi|nat on|off`: real maps kept full by filler keys; model State.qosHalf - egress bucket written, ingress Put "
     "failed, untracked; a failed subscriber_nat Put leaves nothing): every termination removes both QoS entries unconditionally; the accounting server answers every request (an unanswered Stop is C08's subject)",
+    "dhcpterm: failing writes of the fast-path cache maps: Put failures = the map (subscriber_pools, circuit_id_map, "
+    "circuit_id_subscribers, vlan_subscriber_pools; 32 slots here) is kept full by filler keys (`fault sub|cidmap|cid|vlan`): "
+    "a Put of a NEW key fails, an update works, and a Delete earlier in the same call frees the slot the next Put takes "
+    "(model: putK / recache) - these ops belong to `Op`, all theorems and monitor_silent_on_model cover them; Delete failures = "
+    "the handle the Loader holds is swapped (through the existing hook SetMapsForVerif) for a closed duplicate of the map's "
+    "descriptor (`wfault sub|cidmap|cid`): EVERY write through it fails, Put and Delete alike, until the real handle is put "
+    "back - a failing Delete alone (Put working) is not produced; these ops are `OpX.wfault`, outside the theorems' `Op` "
+    "(Inv.ro), the model carries the residue and the finding KF-cache-delete-ignored accounts for it (clause per map and "
+    "operation, Bng.DhcpTerm.clCache); failing Deletes of the QoS maps are driven in component qos (C19), of subscriber_nat "
+    "not at all",
     "dhcpterm: Accounting-Start and Accounting-Stop are sent from goroutines of their own; the harness waits for them after "
     "every operation, so their order on the wire (a Stop overtaking its Start) is not explored",
     "dhcpterm: two terminations at once are realised on the real code by stalling the first one's goroutine at the NAT "
